@@ -18,7 +18,6 @@ Binding      : spec -> code: every edge of the dumped Buffer.tla graph is execut
                semantics (Trace_Buffer.tla); verdicts come from there.
 """
 import os
-from concurrent.futures import ThreadPoolExecutor
 from harness import core, tlaval
 from harness import mem_common as mc
 from harness import mem_buf as mb
@@ -90,7 +89,7 @@ def validate(ctx, traces):
 
 
 # ------------------------------------------------------------------ design level
-def design_level(ctx):
+def design_runs(ctx):
     q = ctx.quick
     runs = [("MC_BufferSlice(len<=5, bounds -7..7/None, steps None,1,2,-1,0; 8-byte memmove; from_buffer)",
              "BufferSlice", slice_cfg(5, 7, 8)),
@@ -98,23 +97,28 @@ def design_level(ctx):
              machine_cfg(4, 1 if q else 2, 3))]
     if not q:
         runs.append(("MC_Buffer(N=5, 2 buffers, 2 steps)", "Buffer", machine_cfg(5, 2, 2)))
+    return runs
 
-    def variant(x):
-        v, where = x
+
+def submit_design(ctx, jobs):
+    for name, module, cfg in design_runs(ctx):
+        jobs.submit(name, module, cfg_text=cfg, workers=4 if ctx.quick else 8, timeout=3000)
+    for v, where in VARIANTS:
         if where == "slice":
-            return x, core.tlc("BufferSlice", cfg_text=slice_cfg(3, 4, 5, v), workers=2, timeout=1200)
-        return x, core.tlc("Buffer", cfg_text=machine_cfg(4, 1, 1, variant=v), workers=2, timeout=1200)
-    with ThreadPoolExecutor(4) as ex:
-        fr = [ex.submit(lambda x: (x[0], core.tlc(x[1], cfg_text=x[2], workers=4 if q else 8, timeout=3000)), x) for x in runs]
-        fv = [ex.submit(variant, x) for x in VARIANTS]
-        for fu in fr:
-            name, r = fu.result()
-            ctx.add_tlc(name, r)
-        for fu in fv:
-            (v, where), r = fu.result()
-            ctx.add_tlc("sanity:%s(%s)" % (v, where), r, require_ok=False, count_states=False)
-            if r.ok or "is violated" not in r.out:
-                raise core.MachineryError("broken variant %s (%s) was not rejected by TLC:\n%s" % (v, where, r.out[-1500:]))
+            jobs.submit("sanity:%s(%s)" % (v, where), "BufferSlice", cfg_text=slice_cfg(3, 4, 5, v), workers=2, timeout=1200)
+        else:
+            jobs.submit("sanity:%s(%s)" % (v, where), "Buffer", cfg_text=machine_cfg(4, 1, 1, variant=v), workers=2, timeout=1200)
+
+
+def collect_design(ctx, jobs):
+    for name, _m, _c in design_runs(ctx):
+        ctx.add_tlc(name, jobs.result(name))
+    for v, where in VARIANTS:
+        name = "sanity:%s(%s)" % (v, where)
+        r = jobs.result(name)
+        ctx.add_tlc(name, r, require_ok=False, count_states=False)
+        if r.ok or "is violated" not in r.out:
+            raise core.MachineryError("broken variant %s (%s) was not rejected by TLC:\n%s" % (v, where, r.out[-1500:]))
 
 
 # ------------------------------------------------------------------ spec -> code
@@ -171,12 +175,23 @@ def replay_path(ctx, g, path, backing):
     return tr, div
 
 
-def spec_to_code(ctx, traces, metas, divergences):
+def slice_dump_conf(ctx):
+    return (3, 4, 5) if ctx.quick else (5, 7, 8)
+
+
+def submit_dumps(ctx, jobs):
+    jobs.submit("dump(Buffer N=4,1 buffer,2 steps)", "Buffer", cfg_text=machine_cfg(4, 1, 2, prune=True, view=False, props=False),
+                dump=os.path.join(ctx.tmp, "bufg"), workers=4, timeout=1200)
+    conf = slice_dump_conf(ctx)
+    jobs.submit("dump(BufferSlice %s)" % (conf,), "BufferSlice", cfg_text=slice_cfg(*conf, props=False),
+                dump=os.path.join(ctx.tmp, "bufs"), workers=4, timeout=1200)
+
+
+def spec_to_code(ctx, jobs, traces, metas, divergences):
     q = ctx.quick
     # (1) histories: every edge of the machine's graph
     dump = os.path.join(ctx.tmp, "bufg")
-    r = core.tlc("Buffer", cfg_text=machine_cfg(4, 1, 2, prune=True, view=False, props=False), dump=dump, workers=4, timeout=1200)
-    ctx.add_tlc("dump(Buffer N=4,1 buffer,2 steps)", r, count_states=False)
+    ctx.add_tlc("dump(Buffer N=4,1 buffer,2 steps)", jobs.result("dump(Buffer N=4,1 buffer,2 steps)"), count_states=False)
     g = tlaval.load_dot(dump + ".dot")
     seen = {(s["res"]["op"], s["res"]["st"]) for s in g.states.values()}
     need = {("buffer", "ok"), ("getidx", "ok"), ("getidx", "IndexError"), ("setidx", "ok"), ("setidx", "IndexError"),
@@ -199,9 +214,8 @@ def spec_to_code(ctx, traces, metas, divergences):
                                              "edges_replayed": min(budget, len(edges))})
     # (2) the exhaustive pure cases on real objects
     dump = os.path.join(ctx.tmp, "bufs")
-    conf = (3, 4, 5) if q else (5, 7, 8)
-    r = core.tlc("BufferSlice", cfg_text=slice_cfg(*conf, props=False), dump=dump, workers=4, timeout=1200)
-    ctx.add_tlc("dump(BufferSlice %s)" % (conf,), r, count_states=False)
+    conf = slice_dump_conf(ctx)
+    ctx.add_tlc("dump(BufferSlice %s)" % (conf,), jobs.result("dump(BufferSlice %s)" % (conf,)), count_states=False)
     g2 = tlaval.load_dot(dump + ".dot")
     states = sorted(g2.states.items())
     ctx.rng.shuffle(states)
@@ -380,15 +394,20 @@ def judge(ctx, traces, metas, bad):
 
 
 def run(ctx):
-    if os.environ.get("VERIF_MEM_SKIP_DESIGN"):      # development aid for mutation experiments only
+    skip = bool(os.environ.get("VERIF_MEM_SKIP_DESIGN"))      # development aid for mutation experiments only
+    jobs = mc.TlcJobs()
+    submit_dumps(ctx, jobs)
+    if skip:
         ctx.cov["states"] = 1
     else:
-        design_level(ctx)
+        submit_design(ctx, jobs)
     traces, metas, divergences = [], [], []
-    spec_to_code(ctx, traces, metas, divergences)
+    spec_to_code(ctx, jobs, traces, metas, divergences)
     nreplay = len(traces)
     code_to_spec(ctx, traces, metas)
     bad = validate(ctx, traces)
+    if not skip:
+        collect_design(ctx, jobs)
     judge(ctx, traces, metas, bad)
     observations(ctx)
     ctx.cov["model_divergences"] = divergences[:10]
